@@ -90,12 +90,27 @@ class Tensor(SArr):
             return r
         return T(r)
 
+    def _uint8_masks(self, idx):
+        # torch reads a uint8 index array as a mask: its shape has to match the indexed dimensions
+        items = idx if isinstance(idx, tuple) else (idx,)
+        d = 0
+        for it in items:
+            if isinstance(it, real_np.ndarray) and it.dtype == real_np.uint8 and not isinstance(it, Tensor):
+                if tuple(it.shape) != tuple(self.shape[d:d + it.ndim]):
+                    raise IndexError('The shape of the mask %s at index %d does not match the shape of the indexed tensor %s at index %d'
+                                     % (list(it.shape), it.ndim - 1, list(self.shape), d + it.ndim - 1))
+                d += it.ndim
+            else:
+                d += 1
+
     def __getitem__(self, idx):
+        self._uint8_masks(idx)
         idx = _idx(idx)
         r = SArr.__getitem__(self, idx)
         return T(r) if isinstance(r, real_np.ndarray) else T(r)
 
     def __setitem__(self, idx, v):
+        self._uint8_masks(idx)
         idx = _idx(idx)
         if isinstance(v, Tensor) and v.ndim == 0:
             v = v.item_()
